@@ -166,7 +166,7 @@ class StoreProfile(Profile):
                     d = posixpath.dirname(d)
                 if bad or path in shadow.paths[cfg].values():
                     continue
-                rel = os.path.relpath(path, run.world.root)
+                rel = path[len("<W>/"):] if path.startswith("<W>/") else os.path.relpath(path, run.world.root)
             return {"op": "junk", "kind": kind, "rel": rel, "dir": isdir, "content": content}
         return None
 
@@ -178,7 +178,7 @@ class StoreProfile(Profile):
         else:
             p = os.path.join(w.root, rel)
             ok = p.startswith(w.disks + os.sep) and not any(
-                run.m.resolve_path(p, c) is not None for c in run.m.configs)
+                run.m.resolve_path("<W>/" + rel, c) is not None for c in run.m.configs)
             if not ok:
                 run.stats["junk_skipped"] += 1
                 return
